@@ -51,16 +51,12 @@ Definition M_tb_binop_tb (f : val -> val -> option val) (a b : list vblk) : res 
               | Err e => Err e
               end).
 
-(* 1-D operand applied to every row (axis 0): column j pairs with other[j] *)
+(* 1-D operand applied to every row (axis 0): column j pairs with other[j]; applied to every column (axis 1):
+   the generic block-walking models of SF/FrameAlign.v *)
 Definition M_tb_binop_rowwise (f : val -> val -> option val) (a : list vblk) (other : list val) : res (list (list val)) :=
-  no_columns (collect_cols (map (fun p => map (fun x => f x (snd p)) (fst p))
-                    (combine (flat_map (k_cols val) a)
-                             (match other with [o] => repeat o (total_width a) | _ => other end)))).
-(* 1-D operand applied to every column (axis 1) *)
+  no_columns (collect_cols (M_tb_rowwise_g val (option val) f a other)).
 Definition M_tb_binop_colwise (f : val -> val -> option val) (a : list vblk) (other : list val) : res (list (list val)) :=
-  no_columns (collect_cols (map (fun c => map2 val (option val) f c
-                                (match other with [o] => repeat o (length c) | _ => other end))
-                    (flat_map (k_cols val) a))).
+  no_columns (collect_cols (M_tb_colwise_g val (option val) f a other)).
 
 (* ---- observed Frame: index labels, column labels, columns (values down the rows) ---- *)
 Definition fobs := res (list val * list val * list (list val)).
